@@ -122,7 +122,7 @@ pub fn run(reg: &dyn Registry, ctx: &Ctx) -> Outcome {
                     Err(o) => ctx.violation(&key("panic"), &format!("{}: seed_from_u64({:#x}) panicked: {:?}", info.name, x, o), rep(json!({"seed_from_u64": x}))),
                 }
             }
-            let bitsn = if thorough { 32 } else { 22 };
+            let bitsn = if thorough { 30 } else { 22 };
             for (label, base, shift) in [("low", alphabet::bg_bytes(ctx.seed, 0x0801, 8), 0u32), ("high", alphabet::bg_bytes(ctx.seed, 0x0802, 8), 64 - bitsn)] {
                 let mut b = [0u8; 8];
                 b.copy_from_slice(&base);
@@ -205,7 +205,7 @@ pub fn run(reg: &dyn Registry, ctx: &Ctx) -> Outcome {
             traces: "source_scripts",
             evaluations: "evaluations",
             distinct: "distinct_images",
-            rule: "every constructor of the 14 linear xoshiro types and XorShiftRng on: the all-zero seed; every non-zero seed of O/W1/W2/WZ/BYTE (state image must equal the seed; distinct = distinct images); the u64 alphabet (incl. the 8 arguments whose SplitMix64 output j is zero) and complete 2^22 (quick) / 2^32 (thorough) sub-cubes of the low and high half of the u64 argument; from_rng and try_from_rng over sources delivering z all-zero blocks (z = 0..12 and 2^j-1, 2^j, 2^j+1 up to 4097 / 65537) followed by single-bit blocks and by the documented replacement constants".into(),
+            rule: "every constructor of the 14 linear xoshiro types and XorShiftRng on: the all-zero seed; every non-zero seed of O/W1/W2/WZ/BYTE (state image must equal the seed; distinct = distinct images); the u64 alphabet (incl. the 8 arguments whose SplitMix64 output j is zero) and complete 2^22 (quick) / 2^30 (thorough) sub-cubes of the low and high half of the u64 argument; from_rng and try_from_rng over sources delivering z all-zero blocks (z = 0..12 and 2^j-1, 2^j, 2^j+1 up to 4097 / 65537) followed by single-bit blocks and by the documented replacement constants".into(),
         },
     }
 }
